@@ -17,7 +17,7 @@ import copy, json, os
 import vlib, m2, m3, irutil, gen
 from batch import Batch, J, canon
 
-PROOF_TARGETS = ["TypifyModel.Proofs.C05", "TypifyModel.Proofs.C05Enc"]
+PROOF_TARGETS = ["TypifyModel.Proofs.C05", "TypifyModel.Proofs.C05Enc", "TypifyModel.Proofs.FlattenFindings"]
 FINDINGS_TARGET = "TypifyModel.Proofs.C05Findings"
 PROOF_FILES = ["Proofs/C05.lean", "Proofs/C05Enc.lean", "Proofs/C11.lean", "Proofs/Lemmas/StrConvLemmas.lean", "Proofs/Lemmas/RenderLemmas.lean"]
 KINDS = [n for n, _ in gen.MUTATORS]          # required additional enum length pattern arity type tag
@@ -765,6 +765,11 @@ def run(ctx):
         c.ops_types = sorted({r.ref for r in rs}, key=str)
         recs += rs
     b.build()
+    # a hand-written case is there to be judged: output that does not compile (or a schema that is no longer ingested) leaves
+    # its constraints undecided
+    undecided = [(c.tag, (c.calls or ["none"])[0] if not c.dump or not (c.calls and c.calls[0].startswith("ok")) else
+                  "rustc: " + "; ".join(str(e.get("message")) for e in (c.rustc_errors or [])[:2]))
+                 for c in bc if c.tag.startswith("hand:") and not c.compiled and not getattr(c, "skipped", False)]
     recs = [r for r in recs if r.case.compiled]
     classify(recs, docs)
     reqs, where = requests_of(recs)
@@ -839,6 +844,8 @@ def run(ctx):
     if not fok:
         ctx.notes.append("Proofs/C05Findings.lean (refutation witness of C05-struct-seq-form) no longer compiles: the finding may have been repaired in the model")
     broken = list(st["broken"])
+    if undecided:
+        broken.append("hand-written cases whose generated code could not be exercised: " + "; ".join("%s (%s)" % u for u in undecided[:4]))
     if r["disagreements"]:
         broken.append("correspondence M3 (de / string conversions): model and compiled code disagree on %d requests" % len(r["disagreements"]))
     if syn["disagreements"]:
@@ -919,6 +926,7 @@ def run(ctx):
         vlib.violation(ctx, {"property": "C05", "kind": "property no longer shown to hold", "broken_obligations": broken,
                              "first_disagreements": [{"case": q[0].tag, "input": q[0].request, "type": q[1], "op": q[2], "payload": q[3],
                                                       "compiled": ra, "model": ma} for q, ra, ma in r["disagreements"][:3]] + syn["disagreements"][:2],
+                             "undecided_cases": [{"case": t_, "reason": why_, "input": next((c.request for c in bc if c.tag == t_), None)} for t_, why_ in undecided[:3]],
                              "lean_log": st.get("log", "")}, no_input=True)
     # ---- evidence
     mutants_n = sum(v["applied"] for v in ev["per"].values())
